@@ -464,8 +464,9 @@ fn main_case(rng: &mut Rng, idx: usize, out: &mut Out, rt: &tokio::runtime::Runt
     });
 }
 
-/// The debugger's last state is not reset by a new transaction: a session abandoned at a
-/// breakpoint on script offset 0, then the target with the same breakpoint.
+/// Regression detector for finding F9 (repaired by 22c6df9: init_inner calls
+/// Debugger::clear_last_state): a session abandoned at a breakpoint on script offset 0, then the
+/// target with the same breakpoint, must behave like on a new instance.
 fn stale_debugger_case(rng: &mut Rng, out: &mut Out, saved: Option<Scenario>) {
     let cfg = GenCfg { n_contracts: 0, unit_items: 4, ..GenCfg::default() };
     let scn = match saved { Some(s) => s, None => gen_scenario(rng, &cfg) };
@@ -485,7 +486,7 @@ fn stale_debugger_case(rng: &mut Rng, out: &mut Out, saved: Option<Scenario>) {
     out.count("stale-debugger-probe");
     if sf != su {
         out.oracle_fail("debugger-last-state-not-reset-after-abandoned-session",
-            &format!("breakpoint at script offset 0; earlier session on the same instance abandoned at {}: new instance returns {sf}, reused instance returns {su} (first debug event swallowed; Debugger::last_state survives init_script)", state_str(h)),
+            &format!("breakpoint at script offset 0; earlier session on the same instance abandoned at {}: new instance returns {sf}, reused instance returns {su} (first debug event swallowed: Debugger::last_state survives init_script)", state_str(h)),
             json!({"kind": "stale-debugger", "scenario": scn.to_json()}));
     }
 }
@@ -499,11 +500,16 @@ fn run_c31(args: &Args, out: &mut Out) {
         else { out.notes.push("replay of history cases re-runs the generator with the recorded seed (use --seed)".into()); }
         return;
     }
+    // corpus, runs first: finding F9 (abandoned debug session), repaired by 22c6df9
+    {
+        let mut crng = Rng::new(0xF9);
+        for _ in 0..3 { stale_debugger_case(&mut crng, out, None); }
+    }
     let n = args.scale(200, 5000);
     // Coq elaborates the byte strings of a case in ~1.5 s: the model replays a prefix of the cases, the oracle sees all
     let n_model = if args.thorough() { 1500 } else { 64 };
     for i in 0..n { main_case(&mut rng, i, out, &rt, !args.oracle_only && i < n_model); }
-    for _ in 0..3 { stale_debugger_case(&mut rng, out, None); }
+    for _ in 0..2 { stale_debugger_case(&mut rng, out, None); }
 }
 
 fn main() {
